@@ -65,6 +65,9 @@ var builtins = map[string][]string{
 
 var customs = []string{"c1", "c2", "c3"}
 
+// caseTwin differs from c1 only in letter case: another name (random histories only, nCustom > len(customs))
+const caseTwin = "C1"
+
 const unknown = "nope"
 
 // processor is the part of gorm's (unexported) *processor the check uses.
@@ -227,16 +230,20 @@ func apply(c Case) []stepResult {
 		rdb = db.Session(&gorm.Session{NewDB: true})
 	case "tx":
 		rdb = db.Where("1 = 1")
+	case "skiptx":
+		// a handle on which the predicate of the transaction built-ins is false: the pipelines belong to the
+		// connection, whose own setting decides
+		rdb = db.Session(&gorm.Session{SkipDefaultTransaction: true})
 	}
-	p := pipeline(rdb, c.Pipeline)
+	exec := pipeline(db, c.Pipeline).(processor) // statements always run through the opened handle
+	p := pipeline(rdb, c.Pipeline)               // the registering handle's Callback() is the last one called
 	pv := reflect.ValueOf(p)
 	proc := p.(processor)
-	exec := pipeline(db, c.Pipeline).(processor) // statements always run through the opened handle
 	for _, b := range builtins[c.Pipeline] {
 		var e error
 		if b == "gorm:begin_transaction" || b == "gorm:commit_or_rollback_transaction" {
 			// registered through Match(...) like the real defaults
-			cb := pv.MethodByName("Match").Call([]reflect.Value{reflect.ValueOf(func(*gorm.DB) bool { return true })})[0]
+			cb := pv.MethodByName("Match").Call([]reflect.Value{reflect.ValueOf(func(d *gorm.DB) bool { return !d.SkipDefaultTransaction })})[0]
 			e = callRegister(cb, b, stub(b, 0))
 		} else {
 			e = proc.Register(b, stub(b, 0))
@@ -1027,7 +1034,8 @@ func normalised(c Case) Case {
 func starAsAnchor(c Case) bool { return len(anchoredStars(c)) > 0 }
 
 // replaceBetweenStars recognises the known class `replace-between-stars`: a Replace that carries a
-// Before/After naming a '*' callback, of a callback that is itself anchored on a '*' callback.
+// Before/After (first seen with a '*' callback as the new anchor, then with any live callback), of a
+// callback that is itself anchored on a '*' callback.
 func replaceBetweenStars(c Case) bool {
 	m := newModel(c.Pipeline)
 	star := func(n string) bool {
@@ -1035,7 +1043,7 @@ func replaceBetweenStars(c Case) bool {
 		return ok && (r.before == "*" || r.after == "*")
 	}
 	for _, o := range c.Ops {
-		if o.Kind == "replace" && o.Match != "f" && (star(o.Before) || star(o.After)) {
+		if o.Kind == "replace" && o.Match != "f" && (o.Before != "" || o.After != "") {
 			if r, ok := m.live[o.Name]; ok && (star(r.before) || star(r.after)) {
 				return true
 			}
@@ -1119,6 +1127,13 @@ func nextOps(m *model, nCustom int, reducedCombos bool) []Op {
 	var ops []Op
 	// names that can be registered now: first unused custom, removed built-ins, removed customs
 	var regNames []string
+	twin := nCustom > len(customs)
+	if twin {
+		nCustom = len(customs)
+		if _, live := m.live[caseTwin]; !live {
+			regNames = append(regNames, caseTwin)
+		}
+	}
 	for i, c := range customs[:nCustom] {
 		if _, live := m.live[c]; !live {
 			regNames = append(regNames, c)
@@ -1133,6 +1148,10 @@ func nextOps(m *model, nCustom int, reducedCombos bool) []Op {
 	}
 	full := anchors(m.pipeline, false)
 	red := anchors(m.pipeline, reducedCombos)
+	if twin {
+		full = append([]string{caseTwin}, full...)
+		red = append([]string{caseTwin}, red...)
+	}
 	for _, n := range regNames {
 		ops = append(ops, Op{Kind: "register", Name: n})
 		ops = append(ops, Op{Kind: "register", Name: n, Match: "t"}, Op{Kind: "register", Name: n, Match: "f"},
@@ -1161,7 +1180,7 @@ func nextOps(m *model, nCustom int, reducedCombos bool) []Op {
 			liveNames = append(liveNames, b)
 		}
 	}
-	for _, c := range customs {
+	for _, c := range append(append([]string(nil), customs...), caseTwin) {
 		if _, ok := m.live[c]; ok {
 			liveNames = append(liveNames, c)
 		}
@@ -1312,7 +1331,7 @@ func TestC17Random(t *testing.T) {
 		m := newModel(pl)
 		var ops []Op
 		for i := 0; i < n; i++ {
-			choices := nextOps(m, 3, false)
+			choices := nextOps(m, len(customs)+1, false)
 			// weight the kinds evenly rather than by count of alternatives
 			kind := rapid.SampledFrom([]string{"register", "register", "register-c", "register-cc", "replace", "remove"}).Draw(rt, "kind")
 			var sub []Op
@@ -1347,7 +1366,7 @@ func TestC17Random(t *testing.T) {
 			ops = append(ops, o)
 			m.step(o)
 		}
-		via := rapid.SampledFrom([]string{"", "", "session", "newdb", "tx"}).Draw(rt, "via")
+		via := rapid.SampledFrom([]string{"", "", "session", "newdb", "tx", "skiptx"}).Draw(rt, "via")
 		runCase(rt, Case{Pipeline: pl, Ops: ops, Via: via}, "TestC17Random")
 	})
 }
@@ -1452,7 +1471,9 @@ func TestC17WitnessStarAnchor(t *testing.T) {
 func TestC17WitnessReplaceBetweenStars(t *testing.T) {
 	for _, pl := range pipelines {
 		witness(t, Case{Pipeline: pl, Ops: []Op{{Kind: "register", Name: "c1", After: "*"}, {Kind: "register", Name: "c2", After: "*"},
-			{Kind: "register", Name: "c3", After: "c2"}, {Kind: "replace", Name: "c3", After: "c1"}}})
+			{Kind: "register", Name: "c3", After: "c2"}, {Kind: "replace", Name: "c3", After: "c1"}}},
+			Case{Pipeline: pl, Ops: []Op{{Kind: "register", Name: "c1", After: "*"}, {Kind: "register", Name: "c2", After: "c1"},
+				{Kind: "register", Name: "c3"}, {Kind: "replace", Name: "c2", After: "c3"}}})
 	}
 }
 
